@@ -519,7 +519,9 @@ func (g *gen) declStruct(f *file, allowUnion bool) *named {
 		case 0:
 			tag = fmt.Sprintf(" `json:\"%s_tag\"`", strings.ToLower(fname))
 		case 1:
-			if exported(fname) {
+			// (not on union-bearing fields: a skipped union stays nil, and a nil
+			// union is outside the domain of the JSON wire format)
+			if exported(fname) && !g.sawUnion {
 				tag = " `gomacro-data:\"ignore\"`"
 				g.prog.Skips = append(g.prog.Skips, FieldRef{Pkg: f.pkg.path, Struct: name, Field: fname})
 			}
